@@ -179,6 +179,42 @@ fn run_case_inner(rep: &mut Report, cap: usize, start: usize, pre: usize, len: u
     true
 }
 
+/// Iterator protocol of the batch iterator `next_frames()`: nth / fold / count / last / skip /
+/// step_by / size_hint against plain next(), from every (capacity, start, prefill) state, after
+/// `lead` frames were taken with next() (so the batch is partly consumed and may straddle the end
+/// of the storage). Every instance is a fresh, leaked Buffered (native stages only).
+fn batch_iterator_conformance(rep: &mut Report, seed: u64, max_cap: usize, scripts: usize) {
+    let mut n = 0u64;
+    for cap in 1..=max_cap {
+        for start in 0..cap {
+            for pre in 0..=cap {
+                for lead in 0..=cap {
+                    for len in [0u64, cap as u64 + 1, 3 * cap as u64] {
+                        let mk = || {
+                            let mut data = vec![-9999.0f64; cap];
+                            for k in 0..pre {
+                                data[(start + k) % cap] = -((k + 1) as f64);
+                            }
+                            let src = USource::generated(src_frame, len, Probe::new());
+                            let b = Box::leak(Box::new(src.buffered(Bounded::from_raw_parts(start, pre, data))));
+                            for _ in 0..lead {
+                                b.next();
+                            }
+                            b.next_frames()
+                        };
+                        let cs = format!("iterconf=1;cap={};start={};pre={};lead={};len={}", cap, start, pre, lead, len);
+                        let mut rng = Rng::derive(seed, &[141, (cap * 1000 + start * 100 + pre * 10 + lead) as u64, len]);
+                        n += checks::iterconf::check_iter("buffered_next_frames", &cs, mk, rep, &mut rng, scripts);
+                    }
+                }
+                rep.nontrivial(vmon::hash_combine(0x6263, (cap * 100 + start * 10 + pre) as u64));
+            }
+        }
+    }
+    rep.eval(n);
+    rep.hit_n("iterator_conformance_scripts", n);
+}
+
 fn classify(got: f64, want: f64) -> &'static str {
     if got == -9999.0 {
         "dead_slot_exposed"
@@ -230,6 +266,11 @@ fn main() {
     let mut rep = Report::new("C14", &cli.stage);
     if let Some(cs) = &cli.case {
         let m = vmon::cli::parse_case(cs);
+        if m.contains_key("iterconf") {
+            batch_iterator_conformance(&mut rep, cli.seed, m["cap"].parse::<usize>().unwrap().max(1), 60);
+            flush(&mut rep);
+            finish(&cli, rep, t0);
+        }
         run_case(&mut rep, m["cap"].parse().unwrap(), m["start"].parse().unwrap(), m["pre"].parse().unwrap(), m["len"].parse().unwrap(), &dec(&m["ops"]), m["fin"].parse().unwrap(), false);
         flush(&mut rep);
         finish(&cli, rep, t0);
@@ -287,6 +328,8 @@ fn main() {
         rep.merge(r);
     }
     if cli.stage == "main" || cli.stage == "release" {
+        rep.oblige("iterator_conformance_scripts", 1);
+        batch_iterator_conformance(&mut rep, cli.seed, cli.t(4, 6), cli.t(8, 40));
         rep.exhaustive(format!("capacities 1..={} x every (start, prefill length) x source lengths 0..={} x every sequence of {} operations from {{next, next_frames().take(j) for j in 0..=cap+1}}, finishing alternately with into_parts and until_exhausted", max_cap, max_src, seq_len));
         // random longer histories, larger capacities
         let n_rand = cli.t(3_000u64, 3_000_000u64);
